@@ -540,3 +540,80 @@ func AllPhaseObjectKeys(os map[string]any, ns string) [][]kmodel.Key {
 	}
 	return out
 }
+
+// ---- ObjectDeployment scenarios ----
+
+// ODKey is the store key of an ObjectDeployment in the default namespace.
+func ODKey(name string) kmodel.Key { return world.PKOKey("ObjectDeployment", world.NS, name) }
+
+// Template builds a single-phase (or multi-phase) template spec from object names.
+func Template(phases []PhaseCfg, x int64) corev1alpha1.ObjectSetTemplateSpec {
+	return world.TemplateSpec(PhaseSpecs(phases, x), world.StdProbes())
+}
+
+// NewOD creates an ObjectDeployment selecting its ObjectSets by label app=<name>.
+func NewOD(name string, tmpl corev1alpha1.ObjectSetTemplateSpec, limit *int32) *corev1alpha1.ObjectDeployment {
+	return &corev1alpha1.ObjectDeployment{
+		ObjectMeta: metav1.ObjectMeta{Name: name, Namespace: world.NS},
+		Spec: corev1alpha1.ObjectDeploymentSpec{
+			RevisionHistoryLimit: limit,
+			Selector:             metav1.LabelSelector{MatchLabels: map[string]string{"app": name}},
+			Template: corev1alpha1.ObjectSetTemplate{
+				Metadata: metav1.ObjectMeta{Labels: map[string]string{"app": name}},
+				Spec:     tmpl,
+			},
+		},
+	}
+}
+
+// SetODTemplate replaces spec.template.spec of a stored ObjectDeployment (user edit).
+func SetODTemplate(w *world.World, name string, tmpl corev1alpha1.ObjectSetTemplateSpec) {
+	c, _, err := kmodel.ToContent(&corev1alpha1.ObjectSet{Spec: corev1alpha1.ObjectSetSpec{ObjectSetTemplateSpec: tmpl}}, world.Scheme)
+	if err != nil {
+		panic(err)
+	}
+	spec := c["spec"].(map[string]any)
+	delete(spec, "lifecycleState")
+	_ = w.Edit(ODKey(name), func(oc map[string]any) {
+		oc["spec"].(map[string]any)["template"].(map[string]any)["spec"] = spec
+	})
+}
+
+// SetODPaused sets spec.paused of a stored ObjectDeployment.
+func SetODPaused(w *world.World, name string, paused bool) {
+	_ = w.Edit(ODKey(name), func(oc map[string]any) {
+		if paused {
+			oc["spec"].(map[string]any)["paused"] = true
+		} else {
+			delete(oc["spec"].(map[string]any), "paused")
+		}
+	})
+}
+
+// ObjectSetsOf lists the stored ObjectSets carrying label app=<od>, sorted by status.revision.
+func ObjectSetsOf(s *kmodel.Store, od string) []kmodel.Key {
+	var ks []kmodel.Key
+	for _, k := range s.SortedKeys() {
+		if k.Group == "package-operator.run" && k.Kind == "ObjectSet" && kmodel.Labels(s.Objs[k].Content)["app"] == od {
+			ks = append(ks, k)
+		}
+	}
+	sort.SliceStable(ks, func(i, j int) bool { return StatusRevision(s.Objs[ks[i]].Content) < StatusRevision(s.Objs[ks[j]].Content) })
+	return ks
+}
+
+// StatusRevision returns status.revision.
+func StatusRevision(c map[string]any) int64 {
+	v, _ := world.Nested(c, "status", "revision")
+	r, _ := v.(int64)
+	return r
+}
+
+// Simple single-phase configs used by chains and deployments.
+func OnePhase(names ...string) []PhaseCfg {
+	p := PhaseCfg{Name: "p1"}
+	for _, n := range names {
+		p.Objects = append(p.Objects, ObjRef{Kind: "Widget", Name: n})
+	}
+	return []PhaseCfg{p}
+}
